@@ -173,8 +173,15 @@ pub fn compile(sp: &Sprite, rng: &mut Rng, v: &Variation) -> FileSpec {
 
 pub fn compile_with(sp: &Sprite, rng: &mut Rng, v: &Variation, palprog: &PaletteProgram) -> FileSpec {
     let mut header = default_header(sp);
+    // header flag bit 0 = "layer opacity has a valid value": when it is clear the opacity byte of every layer chunk
+    // is an unused field and every layer is fully opaque. Only sprites whose layers all have opacity 255 can be
+    // written that way.
+    let opacity_unused = v.junk && !sp.layers.is_empty() && sp.layers.iter().all(|l| l.opacity == 255) && rng.chance(1, 2);
     if v.junk {
-        header.flags = rng.u32() | 1; // bit0 "layer opacity valid" stays set
+        header.flags = rng.u32() | 1; // bit0 "layer opacity valid" stays set (cleared below when every layer is opaque)
+        if opacity_unused {
+            header.flags &= !1;
+        }
         header.speed = rng.u32() as u16;
         header.ph1 = rng.u32();
         header.ph2 = rng.u32();
@@ -257,7 +264,12 @@ pub fn compile_with(sp: &Sprite, rng: &mut Rng, v: &Variation, palprog: &Palette
         }
         for l in &sp.layers {
             let junk = if v.junk { LayerJunk { default_w: rng.u32() as u16, default_h: rng.u32() as u16, r1: rng.u8(), r2: rng.u32() as u16 } } else { LayerJunk { default_w: 0, default_h: 0, r1: 0, r2: 0 } };
-            f0.push(ChunkSpec::Layer { l: l.clone(), junk }.into());
+            let mut item: ChunkItem = ChunkSpec::Layer { l: l.clone(), junk }.into();
+            if opacity_unused {
+                let rng_byte = rng.u8();
+                item.opacity_override = Some(*rng.pick(&[0u8, 1, 127, 128, 254, rng_byte]));
+            }
+            f0.push(item);
             if let Some(ud) = &l.ud {
                 f0.push(ChunkSpec::UserData(ud.clone()).into());
             }
@@ -344,7 +356,12 @@ pub fn compile_with(sp: &Sprite, rng: &mut Rng, v: &Variation, palprog: &Palette
     // a redundant legacy palette may also sit at the start of a later frame (the
     // new-format palette of frame 0 still takes precedence); every later frame
     // continues with a cel chunk or ends, never with a user-data chunk
-    if v.legacy_pal && nframes > 1 && rng.chance(1, 3) {
+    // (only beside a new-format palette: two legacy chunks without one would BOTH count)
+    let has_new_format = match palprog {
+        PaletteProgram::Auto => true,
+        PaletteProgram::Chunks(cs) => cs.iter().any(|c| matches!(c, ChunkSpec::Palette { .. })),
+    };
+    if v.legacy_pal && has_new_format && nframes > 1 && rng.chance(1, 3) {
         if let Some(pal) = &sp.palette {
             if !pal.is_empty() {
                 let f = 1 + rng.usize_below(nframes - 1);
